@@ -35,7 +35,7 @@ func init() {
 	vf.Register(&vf.Check{
 		ID:    "C12",
 		Level: "exploration",
-		Rule: "each case is one stress run of a -race build: one Store (1-3 databases, file replicas behind a delaying ReplicaClient proxy, monitors at 1-5 ms, compaction/snapshot/retention monitors, control Server on a unix socket), 1-2 live application writers + read-mark pinning readers, 8-32 goroutines drawing from the C12 operation set, GOMAXPROCS in {2,4,16} x proxy delay in {0,3,8,20} ms; a run is sized by completed calls (quick: >=10 s and >=1200 calls, wall cap 75 s; thorough: >=30 s and >=5000 calls, cap 180 s), the count reached is in the evidence; " +
+		Rule: "case 0 is a pinned sequential demonstration (commit; SyncAndWait; commit; DB.Sync; DB.Snapshot; DB.ResetLocalState; commit; SyncAndWait; commit; SyncAndWait) of the listed finding keyed *:snapshot-ahead-of-l0-at-reset; every other case is one stress run of a -race build: one Store (1-3 databases, file replicas behind a delaying ReplicaClient proxy, monitors at 1-5 ms, compaction/snapshot/retention monitors, control Server on a unix socket), 1-2 live application writers + read-mark pinning readers, 8-32 goroutines drawing from the C12 operation set, GOMAXPROCS in {2,4,16} x proxy delay in {0,3,8,20} ms; a run is sized by completed calls (quick: >=10 s and >=1200 calls, wall cap 75 s; thorough: >=30 s and >=5000 calls, cap 180 s), the count reached is in the evidence; " +
 			"schedules are real (not replayable bit for bit): the seed fixes configuration and per-goroutine operation choices. " +
 			"distinct = hash(configuration); non-trivial = >=150 completed calls, >=40 distinct overlapping operation-type pairs, >=1 lock/fd probe executed and >=3 distinct ledger states among the restored TXIDs",
 		Assumptions: []string{
@@ -82,10 +82,13 @@ func cases(run *vf.Run) ([]json.RawMessage, error) {
 		fmt.Sscan(v, &ops)
 	}
 	var out []json.RawMessage
+	// case 0: pinned sequential demonstration of the listed finding
+	// "snapshot ahead of level 0 at reset" (see demo.go)
+	out = append(out, vf.Spec(Spec{Idx: 0, Seed: vf.SubSeed(run.Seed, "C12-demo-reset", 0), Profile: "demo-reset"}))
 	for i := 0; i < n; i++ {
 		rng := rand.New(rand.NewSource(vf.SubSeed(run.Seed, "C12", i)))
 		s := Spec{
-			Idx:        i,
+			Idx:        i + 1,
 			Seed:       vf.SubSeed(run.Seed, "C12-case", i),
 			DurMs:      dur,
 			Ops:        ops,
@@ -247,6 +250,9 @@ func runCase(run *vf.Run, raw json.RawMessage, dir string) *vf.Result {
 	if err := json.Unmarshal(raw, &s); err != nil {
 		res.HarnessErr = err.Error()
 		return res
+	}
+	if s.Profile == "demo-reset" {
+		return runDemoReset(run, s, dir)
 	}
 	if !raceBuild() {
 		res.HarnessErr = "C12 needs the race build of the harness (/verif/build.sh race)"
@@ -564,10 +570,12 @@ func runCase(run *vf.Run, raw json.RawMessage, dir string) *vf.Result {
 	distinctK := 0
 	for _, mf := range fin.Mains {
 		before := res.Counters["distinct_k_"+mf.Name]
-		var resets []float64
+		var resets []resetObs
 		for _, e := range evs {
 			if e.Op == "ResetLocalState" && e.DB == mf.Name && e.Err == "" {
-				resets = append(resets, float64(e.T1)/1e9)
+				ro := resetObs{At: float64(e.T1) / 1e9}
+				fmt.Sscanf(e.Note, "l0max=%d himax=%d", &ro.L0Max, &ro.HiMax)
+				resets = append(resets, ro)
 			}
 		}
 		// a non-PASSIVE checkpoint that failed after wal_checkpoint ran (context
